@@ -517,7 +517,9 @@ func spClass(sp string) string {
 func main() {
 	res = report.Init("C09", "model_checking")
 	level1()
+	level1history()
 	level2()
+	res.Info["L1-history"] = "one long-lived registry per (registry kind, strategy, listing assignment of two models over n endpoints); every history of lookups (model in {ma, mb, unknown} x non-empty healthy set) of length 3 (n=2) / 2 (n=3; 3 thorough); each answer judged by the table on its own"
 	var sn []string
 	for _, s := range strategies() {
 		sn = append(sn, s.String())
